@@ -5,8 +5,24 @@ Props.C03 — Check-only entry points give the same verdict, offset and error as
 every combinator; the theorems below are the machine-checked statement that the copies agree on
 everything observable: verdict, cursor, final stack and final tracker state (hence the rendered
 error), for every grammar, rule, node, input form (`Inp` covers &str / Position / Span) and state.
+
+The list and iteration loops exist in two copies as well (`Model/Run.lean`: `seqLoop`/`seqLoopC`,
+`choiceLoop`/`choiceLoopC`, `repLoop`/`repLoopC`, `arrayLoop`/`arrayLoopC`, `skipLoop`/`skipLoopC`,
+`repUnitP`/`repUnitC`), each check copy written after the Rust check copy.  Their agreement is an
+obligation of its own, stated for ARBITRARY element functions that agree:
+`C03_rep_loops_agree` (with `C03_rep_loops_agree_inv` from any loop state satisfying the Rust loop
+invariants, and `C03_rep_unit_agree` for `try_check_unit` / `try_parse_unit`), `C03_seq_loops_agree`,
+`C03_choice_loops_agree`, `C03_array_loops_agree`, `C03_skip_loops_agree`.  In particular the two
+different tests after the `RepeatMinMax` loop (`MAX < MIN` in `try_check_partial_with`,
+`vec.len() < MIN` in `try_parse_partial_with`) are proved to decide alike.  `C03_node_agree` is proved
+from these by induction on the fuel.
+
+Theorems: `C03_node_agree`, `C03_partial_agree`, `C03_full_agree`, `C03_atomic_span`,
+`C03_rep_loops_agree`, `C03_rep_loops_agree_inv`, `C03_rep_unit_agree`, `C03_seq_loops_agree`,
+`C03_choice_loops_agree`, `C03_array_loops_agree`, `C03_skip_loops_agree`.
 -/
 import PestTyped.Lemmas.CheckParse
+import PestTyped.Lemmas.ResProj
 import PestTyped.Model.Gen
 namespace PestTyped
 
@@ -58,6 +74,65 @@ theorem C03_atomic_span (g : NodeGrammar) (uni : Uni) (n : Nat) (inh : Bool) (r 
   rw [check_eq_parse_forget]
   cases parse g uni n (f.eval inh) d.body i { m with trk := m.trk.enter r i.pos } <;> rfl
 
+/-! ### the loops: check copy = parse copy with the values forgotten -/
+
+/-- `RepeatMin` / `RepeatMinMax` (`max = none` / `some MAX`), from the loop entry (`i = 0`, empty
+`vec`): the check loop (`repLoopC`: nothing collected, `MAX < MIN` tested after the loop) equals the
+parse loop (`repLoop`: values collected, `vec.len() < MIN` tested after the loop) with the values
+forgotten, for arbitrary unit functions that agree, every `MIN`, `MAX` (also `MAX < MIN`), budget,
+cursor and state. -/
+theorem C03_rep_loops_agree {α} (uc : Nat → Inp → M → R Unit) (up : Nat → Inp → M → R α)
+    (hu : ∀ idx i m, uc idx i m = (up idx i m).forget) (min : Nat) (max : Option Nat)
+    (budget : Nat) (i : Inp) (m : M) :
+    repLoopC uc min max budget 0 i m = (repLoop up min max budget 0 i m []).forget :=
+  repLoopC_eq0 uc up hu min max budget i m
+
+/-- The same from any loop state that satisfies the invariants of the Rust loop: `vec.len() = i`
+and `i ≤ MAX`.  (Without them the two tests after the loop do differ.) -/
+theorem C03_rep_loops_agree_inv {α} (uc : Nat → Inp → M → R Unit) (up : Nat → Inp → M → R α)
+    (hu : ∀ idx i m, uc idx i m = (up idx i m).forget) (min : Nat) (max : Option Nat)
+    (budget idx : Nat) (i : Inp) (m : M) (acc : List α)
+    (hlen : acc.length = idx) (hle : ∀ mx, max = some mx → idx ≤ mx) :
+    repLoopC uc min max budget idx i m = (repLoop up min max budget idx i m acc).forget :=
+  repLoopC_eq uc up hu min max budget idx i m acc hlen hle
+
+/-- `try_check_unit` (the test `i > 0` made in each of the `SKIP` iterations) against
+`try_parse_unit`, for arbitrary skip and element functions that agree. -/
+theorem C03_rep_unit_agree (sc bc : Inp → M → R Unit) (sp bp : Inp → M → R Val) (dflt : Val) (k : Nat)
+    (hs : ∀ i m, sc i m = (sp i m).forget) (hb : ∀ i m, bc i m = (bp i m).forget)
+    (idx : Nat) (i : Inp) (m : M) :
+    repUnitC sc bc k idx i m = (repUnitP sp bp dflt k idx i m).forget :=
+  repUnitC_eq sc bc sp bp dflt k hs hb idx i m
+
+/-- The elements of a `SeqN` after the first (skips, then the element), for arbitrary element and
+skip functions that agree. -/
+theorem C03_seq_loops_agree {α β} (fc : Node → Inp → M → R Unit) (fp : Node → Inp → M → R α)
+    (skc : Inp → M → R Unit) (skp : Inp → M → R (List β)) (mkp : List β → α → α)
+    (hf : ∀ n i m, fc n i m = (fp n i m).forget) (hs : ∀ i m, skc i m = (skp i m).forget)
+    (ns : List Node) (i : Inp) (m : M) :
+    seqLoopC fc skc ns i m = (seqLoop fp skp mkp ns i m []).forget :=
+  seqLoopC_eq fc fp skc skp mkp hf hs ns i m []
+
+/-- The alternatives of a `ChoiceN` (each under `restore_on_none`), for arbitrary element functions
+that agree; the check copy keeps no branch index. -/
+theorem C03_choice_loops_agree {α} (fc : Node → Inp → M → R Unit) (fp : Node → Inp → M → R α)
+    (hf : ∀ n i m, fc n i m = (fp n i m).forget) (ns : List Node) (i : Inp) (m : M) :
+    choiceLoopC fc ns i m = (choiceLoop fp ns 0 i m).forget :=
+  choiceLoopC_eq fc fp hf ns 0 i m
+
+/-- `[T; N]`: the check copy (the loop only) against the parse copy (the loop collecting a `Vec`,
+then `vec.try_into()`, whose `Err(_) => None` arm is never taken). -/
+theorem C03_array_loops_agree {α} (fc : Inp → M → R Unit) (fp : Inp → M → R α)
+    (hf : ∀ i m, fc i m = (fp i m).forget) (k : Nat) (i : Inp) (m : M) :
+    arrayLoopC fc k i m = (arrayTryInto k (arrayLoop fp k i m [])).forget :=
+  arrayLoopC_eq_tryInto fc fp hf k i m
+
+/-- The `SKIP` runs of the skip type between the elements of a sequence. -/
+theorem C03_skip_loops_agree {α} (fc : Inp → M → R Unit) (fp : Inp → M → R α)
+    (hf : ∀ i m, fc i m = (fp i m).forget) (k : Nat) (i : Inp) (m : M) :
+    skipLoopC fc k i m = (skipLoop fp k i m []).forget :=
+  skipLoopC_eq fc fp hf k i m []
+
 /-! ### non-vacuity: a concrete grammar on which both paths do real work -/
 
 def Res.endPos? {σ α} : Res σ α → Option Nat
@@ -85,5 +160,110 @@ example : (tryParsePartial c03Grammar (fun _ _ => false) 20 1 c03Input).endPos? 
 example : (tryCheckPartial c03Grammar (fun _ _ => false) 20 1 c03Input).endPos? = some 4 := by decide
 example : (tryCheck c03Grammar (fun _ _ => false) 20 1 c03Input).failPos? = some 4 := by decide
 example : (tryParse c03Grammar (fun _ _ => false) 20 1 c03Input).failPos? = some 4 := by decide
+
+/-! ### non-vacuity of the loop theorems: hand-written element functions that agree, on which the
+two copies of each loop do real work -/
+
+/-- An element function of the parse kind (returns the length of the literal matched) … -/
+def c03ElemP : Node → Inp → M → R Nat
+  | .str s, i, m => (match i.matchString s with | some i' => .ok i' m s.length | none => .fail m)
+  | _, _, m => .fail m
+
+/-- … and its twin of the check kind, written separately. -/
+def c03ElemC : Node → Inp → M → R Unit
+  | .str s, i, m => (match i.matchString s with | some i' => .ok i' m () | none => .fail m)
+  | _, _, m => .fail m
+
+theorem c03Elem_agree : ∀ n i m, c03ElemC n i m = (c03ElemP n i m).forget := by
+  intro n i m
+  cases n <;> simp only [c03ElemC, c03ElemP] <;> first | rfl | (split <;> rfl)
+
+/-- Repetition units: iteration `idx` matches `"y"` (the parse twin returns `idx`). -/
+def c03UnitP (idx : Nat) (i : Inp) (m : M) : R Nat :=
+  match i.matchString ['y'] with | some i' => .ok i' m idx | none => .fail m
+
+def c03UnitC (_ : Nat) (i : Inp) (m : M) : R Unit :=
+  match i.matchString ['y'] with | some i' => .ok i' m () | none => .fail m
+
+theorem c03Unit_agree : ∀ idx i m, c03UnitC idx i m = (c03UnitP idx i m).forget := by
+  intro idx i m; simp only [c03UnitC, c03UnitP]; split <;> rfl
+
+def c03Ys : Inp := { start := 0, pos := 0, rest := ['y', 'y', 'y', 'q'], after := [] }
+
+def Res.c03Val? {σ α} : Res σ α → Option α
+  | .ok _ _ a => some a
+  | _ => none
+
+-- `y{1,2}` on `yyyq`: the range `0..MAX` is exhausted after two iterations; both copies stop at 2
+example : (repLoop c03UnitP 1 (some 2) 10 0 c03Ys (M.init c03Ys) []).c03Val? = some [0, 1] := by decide
+example : (repLoop c03UnitP 1 (some 2) 10 0 c03Ys (M.init c03Ys) []).endPos? = some 2 := by decide
+example : (repLoopC c03UnitC 1 (some 2) 10 0 c03Ys (M.init c03Ys)).endPos? = some 2 := by decide
+-- `y{3,2}` (`MAX < MIN`): the loop falls through, then the parse copy finds `vec.len() = 2 < 3`
+-- and the check copy finds `MAX = 2 < 3`; both fail
+example : (repLoop c03UnitP 3 (some 2) 10 0 c03Ys (M.init c03Ys) []).isFail = true := by decide
+example : (repLoopC c03UnitC 3 (some 2) 10 0 c03Ys (M.init c03Ys)).isFail = true := by decide
+-- `y{2,}` on `yyyq`: left by `break` in iteration 3 (`MIN ≤ 3`), no test after the loop
+example : (repLoop c03UnitP 2 none 10 0 c03Ys (M.init c03Ys) []).c03Val? = some [0, 1, 2] := by decide
+example : (repLoopC c03UnitC 2 none 10 0 c03Ys (M.init c03Ys)).endPos? = some 3 := by decide
+-- `y{2,5}`: left by `break` in iteration 3 with `MIN ≤ 3 < MAX`: neither test fires
+example : (repLoop c03UnitP 2 (some 5) 10 0 c03Ys (M.init c03Ys) []).endPos? = some 3 := by decide
+example : (repLoopC c03UnitC 2 (some 5) 10 0 c03Ys (M.init c03Ys)).endPos? = some 3 := by decide
+-- `y{4,}`: `return None` inside the loop (iteration 3 fails, `3 < MIN`)
+example : (repLoopC c03UnitC 4 none 10 0 c03Ys (M.init c03Ys)).isFail = true := by decide
+-- the instance of the theorem
+example : repLoopC c03UnitC 3 (some 2) 10 0 c03Ys (M.init c03Ys) =
+    (repLoop c03UnitP 3 (some 2) 10 0 c03Ys (M.init c03Ys) []).forget :=
+  C03_rep_loops_agree c03UnitC c03UnitP c03Unit_agree 3 (some 2) 10 c03Ys (M.init c03Ys)
+-- outside the loop invariant (`vec` shorter than `i`) the two tests after the loop DO differ: the
+-- hypotheses of `C03_rep_loops_agree_inv` cannot be dropped
+example : (repLoopC c03UnitC 1 (some 1) 10 1 c03Ys (M.init c03Ys)).isFail = false := by decide
+example : (repLoop c03UnitP 1 (some 1) 10 1 c03Ys (M.init c03Ys) []).isFail = true := by decide
+
+-- sequence tail `~ "y" ~ "y"` with one skip run of `"y"?`-like skips (here: the literal `"y"`), on `yyyyq`
+def c03Ys4 : Inp := { start := 0, pos := 0, rest := ['y', 'y', 'y', 'y', 'q'], after := [] }
+
+example : (seqLoop c03ElemP (fun i m => skipLoop (c03ElemP (.str ['y'])) 1 i m []) (fun sk a => sk.length + a)
+    [.str ['y'], .str ['y']] c03Ys4 (M.init c03Ys4) []).c03Val? = some [2, 2] := by decide
+example : (seqLoopC c03ElemC (skipLoopC (c03ElemC (.str ['y'])) 1)
+    [.str ['y'], .str ['y']] c03Ys4 (M.init c03Ys4)).endPos? = some 4 := by decide
+example : seqLoopC c03ElemC (skipLoopC (c03ElemC (.str ['y'])) 1) [.str ['y'], .str ['y']] c03Ys4 (M.init c03Ys4) =
+    (seqLoop c03ElemP (fun i m => skipLoop (c03ElemP (.str ['y'])) 1 i m []) (fun sk a => sk.length + a)
+      [.str ['y'], .str ['y']] c03Ys4 (M.init c03Ys4) []).forget :=
+  C03_seq_loops_agree c03ElemC c03ElemP _ _ _ c03Elem_agree
+    (fun i m => skipLoopC_eq _ _ (c03Elem_agree (.str ['y'])) 1 i m []) _ _ _
+
+-- choice `"q" | "yy" | "y"` on `yyyq`: the second alternative matches (index 1 on the parse path)
+example : (choiceLoop c03ElemP [.str ['q'], .str ['y', 'y'], .str ['y']] 0 c03Ys (M.init c03Ys)).c03Val? =
+    some (1, 2) := by decide
+example : (choiceLoopC c03ElemC [.str ['q'], .str ['y', 'y'], .str ['y']] c03Ys (M.init c03Ys)).endPos? =
+    some 2 := by decide
+example : (choiceLoopC c03ElemC [.str ['q'], .str ['x']] c03Ys (M.init c03Ys)).isFail = true := by decide
+example : choiceLoopC c03ElemC [.str ['q'], .str ['y', 'y'], .str ['y']] c03Ys (M.init c03Ys) =
+    (choiceLoop c03ElemP [.str ['q'], .str ['y', 'y'], .str ['y']] 0 c03Ys (M.init c03Ys)).forget :=
+  C03_choice_loops_agree c03ElemC c03ElemP c03Elem_agree _ _ _
+
+-- `["y"; 3]` and `SKIP = 2` runs
+example : (arrayTryInto 3 (arrayLoop (c03ElemP (.str ['y'])) 3 c03Ys (M.init c03Ys) [])).c03Val? =
+    some [1, 1, 1] := by decide
+-- `try_into` does reject a `Vec` of another length (it is the loop that never produces one)
+example : (arrayTryInto 4 (arrayLoop (c03ElemP (.str ['y'])) 3 c03Ys (M.init c03Ys) [])).isFail = true := by
+  decide
+example : (arrayLoopC (c03ElemC (.str ['y'])) 3 c03Ys (M.init c03Ys)).endPos? = some 3 := by decide
+example : (arrayLoopC (c03ElemC (.str ['y'])) 4 c03Ys (M.init c03Ys)).isFail = true := by decide
+example : (skipLoopC (c03ElemC (.str ['y'])) 2 c03Ys (M.init c03Ys)).endPos? = some 2 := by decide
+
+-- `try_check_unit` / `try_parse_unit` with `SKIP = 1`: no skip in iteration 0, one in iteration 1
+example : (repUnitC (c03ElemC (.str [' '])) (c03ElemC (.str ['y'])) 1 0 c03Ys (M.init c03Ys)).endPos? = some 1 := by
+  decide
+example : (repUnitC (c03ElemC (.str ['y'])) (c03ElemC (.str ['y'])) 1 1 c03Ys (M.init c03Ys)).endPos? = some 2 := by
+  decide
+
+-- the whole interpreters on a bounded repetition with `MAX < MIN` and on one left by `break`
+example : (check c03Grammar (fun _ _ => false) 5 false (.rep .zero 3 (some 2) (.str ['y'])) c03Ys
+    (M.init c03Ys)).isFail = true := by decide
+example : (parse c03Grammar (fun _ _ => false) 5 false (.rep .zero 3 (some 2) (.str ['y'])) c03Ys
+    (M.init c03Ys)).isFail = true := by decide
+example : (check c03Grammar (fun _ _ => false) 5 false (.rep .zero 1 (some 7) (.str ['y'])) c03Ys
+    (M.init c03Ys)).endPos? = some 3 := by decide
 
 end PestTyped
